@@ -26,6 +26,7 @@ type LoopSpec struct {
 	Hints   []*Clause
 	Applies []*Clause
 	Decr    *Clause
+	From    map[string][]string // invariant label -> facts its preservation follows from
 }
 
 type Hook struct {
@@ -128,7 +129,7 @@ var clauseKeywords = map[string]bool{
 	"spec": true, "axiom": true, "lemma": true, "type": true, "func": true,
 	"props": true, "trusted": true, "pure": true, "requires": true, "ensures": true,
 	"modifies": true, "ghost": true, "use": true, "on": true, "after": true, "before": true,
-	"loop": true, "invariant": true, "hint": true, "apply": true, "decreases": true, "nonnil": true, "lock": true,
+	"loop": true, "invariant": true, "hint": true, "preserved": true, "apply": true, "decreases": true, "nonnil": true, "lock": true,
 	"lockinv": true, "guarantee": true, "rely": true, "fresh": true, "exit": true, "flows": true, "assigns": true, "assumes": true, "holds": true, "allocates": true, "deadreturn": true, "bind": true, "nilable": true, "nosafety": true, "using": true,
 }
 
@@ -565,6 +566,21 @@ func parseContractFile(path string, requirePrefix bool) (*ContractFile, error) {
 				return nil, errf(rc, "apply outside loop")
 			}
 			curL.Applies = append(curL.Applies, &Clause{Kind: "apply", Expr: strings.TrimSpace(rc.rest), File: path, Line: rc.line})
+		case "preserved":
+			// preserved decoded: stored_byte0 stored_byte1 decoded
+			// (the preservation of invariant `decoded` is first tried from the
+			// quantifier-free context plus the named assertions/invariants)
+			if curL == nil {
+				return nil, errf(rc, "preserved outside loop")
+			}
+			ci := strings.Index(rc.rest, ":")
+			if ci < 0 {
+				return nil, errf(rc, "preserved label: fact ...")
+			}
+			if curL.From == nil {
+				curL.From = map[string][]string{}
+			}
+			curL.From[strings.TrimSpace(rc.rest[:ci])] = strings.Fields(strings.ReplaceAll(rc.rest[ci+1:], ",", " "))
 		case "hint":
 			if curL == nil {
 				return nil, errf(rc, "hint outside loop")
